@@ -102,9 +102,33 @@ int main(int argc, char** argv) {
         // the renormalisation sequence used by the program
         ps->updateXProjection();
         ps->integrateAndNormalize();
+        std::string cls = unequal ? "unequal_cells" : "equal_cells";
+        // the order main() uses for its final record: moments are asked right after the renormalisation, while the position
+        // projection still is the one from before it - they must be the moments of that projection (normalised by its own charge)
+        if (flavour != 2 && (c % 4) >= 2) {
+            ps->variance(0);
+            auto mean = ps->getMoment(0, 0); auto rms = ps->getBunchLength();
+            for (uint32_t b = 0; b < nb; b++) {
+                if (fill[b] == 0) continue;
+                auto proj = ps->getProjection(0, b);
+                double s0 = 0, s1 = 0, s2 = 0;
+                for (uint32_t i = 0; i < n; i++) { s0 += proj[i]; s1 += proj[i] * (double)ps->q(i); }
+                if (!(s0 > 0)) continue;
+                double m1 = s1 / s0; for (uint32_t i = 0; i < n; i++) s2 += proj[i] * ((double)ps->q(i) - m1) * ((double)ps->q(i) - m1);
+                double sd = std::sqrt(s2 / s0), ext = (double)ps->getMax(0) - ps->getMin(0);
+                double tolm = 5e-4 * sd + 32 * n * EPS * ext, tols = 1e-3 * sd + 32 * n * EPS * ext;
+                M.ev("moments_right_after_renormalisation_checked");
+                bool ok1 = M.within("moment.after_norm.mean_over_tol", std::fabs((double)mean[b] - m1) / tolm, 1.0);
+                bool ok2 = M.within("moment.after_norm.rms_over_tol", std::fabs((double)rms[b] - sd) / tols, 1.0);
+                if (!ok1 || !ok2) {
+                    vh::J d; d.i("n", n).i("nb", nb).i("bunch", b).n("mean_reported", mean[b]).n("mean_of_projection", m1).n("rms_reported", rms[b]).n("rms_of_projection", sd).n("share_set", fill[b]).n("projection_charge", s0 * d0);
+                    M.violation("C09:moment:projection:right_after_renormalisation", "moments asked right after a renormalisation are not the moments of the bunch's (not yet refreshed) position projection", d.str());
+                    break;
+                }
+            }
+        }
         ps->updateXProjection();
         ps->integrate();
-        std::string cls = unequal ? "unequal_cells" : "equal_cells";
         auto pop = ps->getBunchPopulation();
         double total = 0;
         for (uint32_t b = 0; b < nb; b++) {
